@@ -806,7 +806,7 @@ STRUCTURES = {
 }
 
 
-def h_whole(ctx, structure, free_bits, order):
+def h_whole(ctx, structure, free_bits, order, read_between=False):
     """`free_bits`: how many of the origin's 8-k high bits per axis are
     symbolic (the remaining ones are chosen: all-zero / all-one)."""
     from rig.machine_control.regions import compress_flood_fill_regions
@@ -844,7 +844,24 @@ def h_whole(ctx, structure, free_bits, order):
     pairs = [((PX | dx, PY | dy), set(chips[(dx, dy)])) for dx, dy in keys]
 
     try:
-        out = compress_flood_fill_regions(Targets(pairs))
+        if read_between:
+            # the tree used directly: cores added in two groups with the
+            # pairs read out in between (what was read then must not stick)
+            from rig.machine_control.regions import RegionCoreTree
+            t = RegionCoreTree()
+            half = (len(pairs) + 1) // 2
+            for (x, y), cores in pairs[:half]:
+                for p in sorted(cores):
+                    t.add_core(x, y, p)
+            early = sorted(t.get_regions_and_coremasks())
+            ctx.observe("read between", len(early))
+            for (x, y), cores in pairs[half:]:
+                for p in sorted(cores):
+                    t.add_core(x, y, p)
+            out = sorted(t.get_regions_and_coremasks())
+            ctx.witness("read-between")
+        else:
+            out = compress_flood_fill_regions(Targets(pairs))
     except Exception as e:
         ctx.observe(type(e).__name__)
         ctx.prove(False, "flood-fill-raises-on-valid-targets", repr(e))
@@ -1095,6 +1112,15 @@ def units(tier, seed):
                        modes=c09.ALL_MODES[2:], nn_starts=(125,),
                        pres=(False,)), split=5,
                    witnesses=("returned", "retried"), path_timeout_s=120))
+    for (st, fb, order) in (("neighbours different cores", 1, 0),
+                            ("l3 15/16 corner holes", 0, 2),
+                            ("same mask at nested levels", 0, 0)):
+        us.append(Unit("tree read between two groups of cores: %s free=%d "
+                       "order=%d" % (st, fb, order), h_whole,
+                       dict(structure=st, free_bits=fb, order=order,
+                            read_between=True),
+                       witnesses=("emitted", "read-between"), split=2,
+                       path_timeout_s=300))
     for (st, fb, order) in whole:
         us.append(Unit("whole %s free=%d order=%d" % (st, fb, order), h_whole,
                        dict(structure=st, free_bits=fb, order=order),
